@@ -50,9 +50,28 @@ package core
 //      waiting.
 //  S5  Bind: success => the API object gets its node name (a new version) and PostBind follows
 //      immediately; failure => Unreserve. Binding a pod that is already deleted at the API fails.
-//  S6  Not generated: Permit / PostBind of p after p's own delete was delivered; changes of a
-//      gang's group list; different modes inside one group; terminated pod phases;
-//      network-topology and preemption paths.
+//      Third outcome, "applied but reported failed" (the API server bound the pod, the scheduler's
+//      client saw a timeout): the object gets its node name, the scheduler runs Unreserve, PostBind
+//      never comes; the informer may deliver the update carrying the node name BEFORE that
+//      Unreserve (the client waits for its timeout) or after it.
+//  S6  Not generated: Permit / PostBind of p after p's own delete was delivered; a group list that
+//      does not name the declaring gang; group changes of annotation gangs (they are initialised
+//      once) and of groups that contain one; terminated pod phases; network-topology and
+//      preemption paths.
+//  G1  The gang-groups annotation (pod annotation or PodGroup annotation). A gang that names no
+//      other gang is its own group, however that is spelled: annotation absent, "", "null", "[]",
+//      illegal JSON, or a list naming only the gang itself. A list may name a gang that never
+//      exists (then nobody of the group can ever be released).
+//  G2  PodGroup UPDATE events that change only annotations (spec identical): the match policy of
+//      one gang; the mode, written to every PodGroup of the group; the group list - a gang leaves
+//      its group or joins another one (only groups made of PodGroup gangs), written consistently
+//      to every PodGroup of the old and of the new group; the spelling of "on its own". Each
+//      PodGroup's event is delivered separately and possibly late, so the cache passes through
+//      states in which the gangs of a group disagree about the group or the mode. In such a state
+//      the statement is read per declaring gang: a release needs every gang of the group AS
+//      CURRENTLY DECLARED (as far as the cache was told) BY THE RELEASING POD'S GANG to have its
+//      minimum; a roll-back in a strict gang must reject the waiting members of the gangs that
+//      gang currently declares (of those that are themselves strict while the modes disagree).
 //
 // SHADOW TRUTH (independent of the gang's own sets) per pod incarnation:
 //      known   = add/update delivered, delete not delivered (and the gang record not thrown away)
@@ -61,14 +80,17 @@ package core
 //   =>  gone (not known) | Bound (known, bound) | Waiting (known, held) | Pending (otherwise).
 //
 // ORACLES
-//  (1) release: at Permit=Success (and for every Allow the handle sees) every gang of the group
-//      exists, is initialised and has >= min members holding resources per its policy, counted on
-//      the shadow truth: only-waiting: Waiting; waiting-and-running: Waiting+Bound; once-satisfied:
-//      Waiting, or "some member of the group was bound before".
+//  (1) release: at Permit=Success every gang of the group currently declared by the releasing
+//      pod's gang exists, is initialised and has >= min members holding resources per its policy,
+//      counted on the shadow truth: only-waiting: Waiting; waiting-and-running: Waiting+Bound;
+//      once-satisfied: Waiting, or "some member was bound before" - kept per set of gangs that ever
+//      declared one another (lenient: true whenever the implementation's flag can be). Every Allow
+//      of that release goes to a pod of a gang of that group; an Allow seen during any other call
+//      must satisfy the same for the allowed pod's gang.
 //  (2) converse (Wait although every gang had its minimum): counted only.
-//  (3) strict mode: after Unreserve / AfterPostFilter of a member of a strict group that is not
-//      (once-satisfied and already satisfied), every pod in the waiting map that belongs to a gang
-//      of the group has received a Reject.
+//  (3) strict mode: after Unreserve / AfterPostFilter of a member of a strict gang that is not
+//      (once-satisfied and already satisfied), every pod in the waiting map that belongs to a
+//      (strict) gang of the group that gang currently declares has received a Reject.
 //  (4) partition: in GetGangSummaries() Pending, WaitingForBind, Bound are pairwise disjoint, their
 //      union is Children, and each equals the shadow set. After every operation (seq), at the
 //      quiescent points between phases (conc).
@@ -1914,7 +1936,7 @@ func (u *c04U) finish() {
 
 func TestVerifC04Seq(t *testing.T) {
 	kit.Run(t, kit.Config{Property: "C04", Unit: "seq", Quick: 3500, Thorough: 150000,
-		Rule: "sequential histories of 60-150 operations over 1-2 gang groups of 1-3 gangs (min 1-3, 2-5 pod slots, strict / non-strict, three match policies, annotation and PodGroup sources): API create/touch/delete of pods with lagging in-order informer delivery (stale updates after PostBind on purpose), PodGroup add/update/delete, scheduling cycles (gate, Permit + AllowGangGroup, AfterPostFilter), wake-ups of signalled waiting pods, permit timeouts, bind success (PostBind) / failure (Unreserve); oracles (1)(3) at every scheduler call, (4) after every operation; distinct = (policy, mode, per-gang min / waiting / bound counts) at each Permit decision; non-trivial = case with a release, a wait and a group rejection"},
+		Rule: "sequential histories of 60-150 operations over 1-2 gang groups of 1-3 gangs (min 1-3, 2-5 pod slots, strict / non-strict, three match policies, annotation and PodGroup sources): API create/touch/delete of pods with lagging in-order informer delivery (stale updates after PostBind on purpose), PodGroup add / delete / updates of the spec (min, timeout) and annotation-only updates (match policy, mode, gang-group list - a gang leaves or joins a group, one event per PodGroup - and its spelling), gang-groups annotations in every degenerate spelling (absent, \"\", null, [], illegal JSON, self only, naming a gang that never exists), scheduling cycles (gate, Permit + AllowGangGroup, AfterPostFilter), wake-ups of signalled waiting pods, permit timeouts, bind success (PostBind) / failure (Unreserve) / applied-but-reported-failed (bound update before or after the Unreserve); oracles (1)(3) at every scheduler call, (4) after every operation; distinct = (policy, mode, per-gang min / waiting / bound counts) at each Permit decision; non-trivial = case with a release, a wait and a group rejection"},
 		func(c *kit.Case) {
 			u := c04NewUniverse(c, false)
 			u.op("-", "universe %s", u.describe())
@@ -1995,7 +2017,7 @@ func c04PanicInHarness(stack string) (string, bool) {
 
 func TestVerifC04Conc(t *testing.T) {
 	kit.Run(t, kit.Config{Property: "C04", Unit: "conc", Quick: 1000, Thorough: 45000,
-		Rule: "the same universes; a pre-generated history of 80-160 intents is split into the informer's half (pod create/touch/deliver/delete, PodGroup add / no-change update) and the scheduler's half (cycles, wake-ups, timeouts, bind results) which run on two goroutines in 3 phases under the race detector with random yields between operations; oracles (1)(3) online at the scheduler goroutine against window bounds of the shadow truth, (4) at the quiescent point after each phase; distinct = Permit decision states plus the observed interleaving of each phase; non-trivial = case with a release, a wait and a group rejection"},
+		Rule: "the same universes; a pre-generated history of 80-160 intents is split into the informer's half (pod create/touch/deliver/delete, PodGroup add / no-change update) and the scheduler's half (cycles, wake-ups, timeouts, bind results incl. applied-but-reported-failed with its late Unreserve) which run on two goroutines in 3 phases under the race detector with random yields between operations and at the entry of the Gang set transitions; oracles (1)(3) online at the scheduler goroutine against window bounds of the shadow truth, (4) at the quiescent point after each phase; distinct = Permit decision states plus the observed interleaving of each phase; non-trivial = case with a release, a wait and a group rejection"},
 		func(c *kit.Case) {
 			u := c04NewUniverse(c, true)
 			u.op("-", "universe %s", u.describe())
